@@ -22,6 +22,7 @@ use tokio::sync::oneshot;
 use crate::{Args, arg_str, arg_u64, mem::fields, rng::Rng};
 
 type ICache = Cache<u64, u64>;
+const PHANTOM_BASE: u64 = 1_000_000_000;
 type IEntry = CacheEntry<u64, u64>;
 type IFut = GetOrFetch<u64, u64>;
 
@@ -31,6 +32,8 @@ pub enum Ev {
     Disk { c: u64, r: Option<Result<Option<u64>, ()>> },
     Origin { c: u64, r: Result<u64, ()> },
     Insert { k: u64, v: u64 },
+    /// an explicit insert whose value the memory filter rejects (values >= PHANTOM_BASE): a disk-only record
+    PInsert { k: u64, v: u64 },
     Remove { k: u64 },
     DropCaller { c: u64 },
     Abort,
@@ -72,7 +75,8 @@ fn err_name(e: &Error) -> String {
 
 impl Exec {
     pub fn new(algo: &str, keys: u64) -> Self {
-        let b = CacheBuilder::new(1000).with_shards(1);
+        // values >= PHANTOM_BASE are rejected by the memory filter: their records are disk-only ("phantom")
+        let b = CacheBuilder::new(1000).with_shards(1).with_filter(|_k: &u64, v: &u64| *v < PHANTOM_BASE);
         let cache: ICache = match algo {
             "lru" => b.with_eviction_config(LruConfig::default()).build(),
             _ => b.with_eviction_config(FifoConfig::default()).build(),
@@ -142,6 +146,7 @@ impl Exec {
                 }
             ),
             Ev::Insert { k, v } => format!("ev=insert k={k} v={v}"),
+            Ev::PInsert { k, v } => format!("ev=pinsert k={k} v={v}"),
             Ev::Remove { k } => format!("ev=remove k={k}"),
             Ev::DropCaller { c } => format!("ev=dropcaller c={c}"),
             Ev::Abort => "ev=abort".into(),
@@ -238,7 +243,7 @@ impl Exec {
                     let _ = tx.send(r.clone());
                 }
             }
-            Ev::Insert { k, v } => {
+            Ev::Insert { k, v } | Ev::PInsert { k, v } => {
                 self.cache.insert(*k, *v);
             }
             Ev::Remove { k } => {
@@ -346,7 +351,11 @@ fn gen_ev(rng: &mut Rng, ex: &Exec, next_c: &mut u64, next_v: &mut u64, keys: u6
             }
             72..=83 => {
                 *next_v += 1;
-                Ev::Insert { k: rng.below(keys), v: *next_v }
+                if rng.chance(1, 4) {
+                    Ev::PInsert { k: rng.below(keys), v: PHANTOM_BASE + *next_v }
+                } else {
+                    Ev::Insert { k: rng.below(keys), v: *next_v }
+                }
             }
             84..=90 => Ev::Remove { k: rng.below(keys) },
             91..=96 => {
@@ -425,6 +434,7 @@ pub fn replay(text: &str) -> String {
                 r: if let Some(v) = r.strip_prefix("ok:") { Ok(v.parse().unwrap_or(0)) } else { Err(()) },
             },
             Some("insert") => Ev::Insert { k: n("k"), v: n("v") },
+            Some("pinsert") => Ev::PInsert { k: n("k"), v: n("v") },
             Some("remove") => Ev::Remove { k: n("k") },
             Some("dropcaller") => Ev::DropCaller { c: n("c") },
             Some("abort") => Ev::Abort,
